@@ -152,7 +152,7 @@ pub fn evaluate(sc: &Scenario, oracle: &Oracle, precompiles: Precompiles, engine
     let m = materialise(sc);
     let txs = materialise_txs(sc, &m);
     let parallel = takes_parallel_path(&sc.grevm, txs.len());
-    let want_rb = oracle.readback && sc.faults.is_empty();
+    let want_rb = oracle.readback && sc.faults.is_empty() && sc.raw_faults.is_empty();
     let ref_db = {
         let mut d = m.db.clone();
         d.yields = false;
@@ -192,7 +192,7 @@ pub fn evaluate(sc: &Scenario, oracle: &Oracle, precompiles: Precompiles, engine
         Verdict::Completed => {}
     }
     if let Some(p) = &out.panic {
-        let injected = sc.faults.iter().any(|f| matches!(f.mode, FaultMode::PanicNth(_)));
+        let injected = sc.faults.iter().any(|f| matches!(f.mode, FaultMode::PanicNth(_))) || sc.raw_faults.iter().any(|f| matches!(f.mode, FaultMode::PanicNth(_)));
         if !(injected && p == PANIC_PAYLOAD) {
             rep.failure = fail("panic", format!("execute() panicked: {p}"));
             return (rep, Artifacts { rf, out });
